@@ -18,10 +18,10 @@ structure InvC (c : Cfg) (s : St) : Prop where
   finw : s.fin = true → s.once = 2 ∨ s.rpc = .done
   gp : (s.gpc = .pwrite ∨ s.gpc = .psend) → genPanics c = true
   mpan : ∀ i, (s.mp i = .recovered ∨ s.mp i = .pwrite ∨ s.mp i = .psend) → hasPanic (c.mscript i) = true
-  rpan : ∀ p, (s.rpc = .drain (some p) ∨ s.rpc = .pwrite p ∨ s.rpc = .psend p) → allowed c (.panic p) = true
-  pb : ∀ p, s.pbuf = some p → allowed c (.panic p) = true
-  cdr : ∀ p, s.cpc = .drainOut p → allowed c (.panic p) = true
-  cres : ∀ r, (s.cpc = .defer r ∨ s.cpc = .check r ∨ s.cpc = .done r) → allowed c r = true
+  rpan : ∀ p, (s.rpc = .drain (some p) ∨ s.rpc = .pwrite p ∨ s.rpc = .psend p) → allowed0 c (.panic p) = true
+  pb : ∀ p, s.pbuf = some p → allowed0 c (.panic p) = true
+  cdr : ∀ p, s.cpc = .drainOut p → allowed0 c (.panic p) = true
+  cres : ∀ r, (s.cpc = .defer r ∨ s.cpc = .check r ∨ s.cpc = .done r) → allowed0 c r = true
   mcd : ∀ i sc, s.mp i = .cdrain sc → s.once ≠ 0
   rcd : ∀ sc, s.rpc = .cdrain sc → s.once ≠ 0
   ccd : s.cpc = .cdrain → s.once ≠ 0
@@ -73,8 +73,8 @@ theorem invC_gen {c : Cfg} {s s' : St} (I : InvC c s) (h : stepGen c s = some s'
     obtain ⟨s1, h1, rfl⟩ := h
     have hg := I.gp (Or.inr (by assumption))
     rcases panicSend_eq h1 with ⟨_, _, rfl⟩ | ⟨_, hs, rfl⟩
-    · exact { I with gp := by simp, pb := by intro p hp; simp at hp; subst hp; simpa [allowed] using hg }
-    · exact { I with cce := by simp, gp := by simp, cdr := by intro p hp; simp at hp; subst hp; simpa [allowed] using hg,
+    · exact { I with gp := by simp, pb := by intro p hp; simp at hp; subst hp; simpa [allowed0] using hg }
+    · exact { I with cce := by simp, gp := by simp, cdr := by intro p hp; simp at hp; subst hp; simpa [allowed0] using hg,
                      cres := by simp, ccd := by simp, multi := by simp [callerPast] }
   · simp at h; subst h; exact { I with gp := by simp }
   · simp at h
@@ -201,9 +201,9 @@ theorem invC_mapper {c : Cfg} {s s' : St} (i : Nat) (I : InvC c s) (h : stepMapp
     obtain ⟨s1, h1, rfl⟩ := h
     rcases panicSend_eq h1 with ⟨_, _, rfl⟩ | ⟨_, hs, rfl⟩
     · exact { I with mlt := mlt_upd I _ hi, msuf := msuf_upd I _ (by simp [mRem]), mcd := mcd_upd I _ id (by simp), mpan := mpan_upd I _ (by simp),
-                     pb := by intro p hp'; simp at hp'; subst hp'; simp [allowed, hi, hp] }
+                     pb := by intro p hp'; simp at hp'; subst hp'; simp [allowed0, hi, hp] }
     · exact { I with cce := by simp, mlt := mlt_upd I _ hi, msuf := msuf_upd I _ (by simp [mRem]), mcd := mcd_upd I _ id (by simp), mpan := mpan_upd I _ (by simp),
-                     cdr := by intro p hp'; simp at hp'; subst hp'; simp [allowed, hi, hp],
+                     cdr := by intro p hp'; simp at hp'; subst hp'; simp [allowed0, hi, hp],
                      cres := by simp, ccd := by simp, multi := by simp [callerPast] }
   next hpc =>  -- wgdone
     simp at h; subst h
@@ -337,7 +337,7 @@ theorem invC_red {c : Cfg} {s s' : St} (I : InvC c s) (h : stepRed c s = some s'
       · simp [hpc] at h2
     simp at h; subst h
     exact { I with rsuf := by simp [rRem], rcd := by simp,
-                   rpan := by intro p hp; simp at hp; subst hp; simpa [allowed, hasPanic] using suffix_head_mem hs,
+                   rpan := by intro p hp; simp at hp; subst hp; simpa [allowed0, hasPanic] using suffix_head_mem hs,
                    finw := fun hf => Or.inl (hfw hf),
                    multi := by intro a b; have := I.multi a b; simp [rW, rRem] at this ⊢; omega }
   next v sc hpc =>  -- send
@@ -358,7 +358,7 @@ theorem invC_red {c : Cfg} {s s' : St} (I : InvC c s) (h : stepRed c s = some s'
       exact { I with rsuf := by simp [rRem], rcd := by simp,
                      rpan := by
                        intro p hp; simp at hp; subst hp
-                       simp only [allowed, Bool.and_eq_true, Bool.not_eq_true', Bool.or_eq_true]
+                       simp only [allowed0, Bool.and_eq_true, Bool.not_eq_true', Bool.or_eq_true]
                        refine ⟨?_, ?_⟩
                        · cases hw : writesOf c.rscript with
                          | nil => simp [hw] at hv
@@ -377,7 +377,7 @@ theorem invC_red {c : Cfg} {s s' : St} (I : InvC c s) (h : stepRed c s = some s'
                          intro r hr; simp at hr; subst hr
                          split
                          next e he => exact errOK_allowed (I.ret e he)
-                         next => simpa [allowed] using hv,
+                         next => simpa [allowed0] using hv,
                        finw := fun hf => Or.inl (hfw hf),
                        multi := by intro a b; simp [rW, rRem, writesOf] at hle ⊢; omega }
       next p hc =>
@@ -393,7 +393,7 @@ theorem invC_red {c : Cfg} {s s' : St} (I : InvC c s) (h : stepRed c s = some s'
                        cres := by
                          intro r' hr; simp at hr; subst hr
                          simp [hpc, rW, rRem, writesOf] at hm
-                         simp [allowed]; omega,
+                         simp [allowed0]; omega,
                        finw := fun hf => Or.inl (hfw hf),
                        multi := by intro a b; simp [hpc, rW, rRem, writesOf] at hm ⊢; omega }
       next => simp at h
@@ -479,7 +479,7 @@ theorem invC_caller {c : Cfg} {s s' : St} (I : InvC c s) (h : stepCaller c s = s
       have hctx : c.ctxCan = true ∨ c.ctxPre = true := by
         -- the caller only enters cancel after it saw ctx.Done
         exact I.cce (Or.inl hpc)
-      exact { I with ret := by intro e he; simp at he; subst he; simpa [errOK, allowed] using hctx,
+      exact { I with ret := by intro e he; simp at he; subst he; simpa [errOK, allowed0] using hctx,
                      ole := by simp, once1 := by simp, once2 := by simp, rcd := by simp, ccd := by simp, mcd := by simp,
                      cdr := by simp, cres := by simp, cce := fun _ => hctx,
                      finw := by intro hf; rcases I.finw hf with h2 | h2
@@ -492,7 +492,7 @@ theorem invC_caller {c : Cfg} {s s' : St} (I : InvC c s) (h : stepCaller c s = s
         have hctx := I.cce (Or.inl hpc)
         have h2 : s.once = 2 := by have := I.ole; omega
         exact { I with cdr := by simp, ccd := by simp, cce := by simp,
-                       cres := by intro r hr; simp at hr; subst hr; simpa [allowed] using hctx,
+                       cres := by intro r hr; simp at hr; subst hr; simpa [allowed0] using hctx,
                        multi := by intro _ hf; have := I.once2 h2; simp_all }
   next hpc =>  -- cdrain
     split at h
@@ -505,7 +505,7 @@ theorem invC_caller {c : Cfg} {s s' : St} (I : InvC c s) (h : stepCaller c s = s
       have hctx := I.cce (Or.inr hpc)
       exact { I with once1 := by intro _; exact I.once1 (I.ccd hpc), rcd := by simp, ccd := by simp, mcd := by simp,
                      ole := by simp, once2 := by simp, finw := by simp, multi := by simp, cdr := by simp, cce := by simp,
-                     cres := by intro r hr; simp at hr; subst hr; simpa [allowed] using hctx }
+                     cres := by intro r hr; simp at hr; subst hr; simpa [allowed0] using hctx }
     next => simp at h
   next p hpc =>  -- drainOut
     split at h
